@@ -173,6 +173,7 @@ def _model(case, ctx):
         opts['feat_rows_mode'] = ['subset', 'complete_by_template', 'subset_unsorted'][case['seed'][2] % 3]
     if case['seed'][2] % 4 == 1:
         opts['feat_nan_rows'] = 2               # spikes whose stored values are all NaN
+        opts['tfeat_nonfinite'] = 3
     if case['seed'][2] % 5 == 2:
         # sparse templates whose column table is as wide as the feature store (it must not be taken for the features' table)
         opts.update(sparse_templates=True, clusters='same')
@@ -242,8 +243,7 @@ def _features(m, spec, desc, ctx, rng, feat):
                     hit = np.nonzero(cols == c)[0]
                     e = F[row, :, hit[0]] if len(hit) == 1 else np.zeros(npcs, F.dtype)
                     o_, e_ = out[i, j].astype(np.float64), e.astype(np.float64)
-                    # a stored NaN may come back as NaN or (when the file is loaded eagerly) as the documented 0
-                    if not (np.array_equal(o_, e_, equal_nan=True) or (np.isnan(e_).any() and np.array_equal(o_, np.nan_to_num(e_, nan=0.0)))):
+                    if not np.array_equal(o_, e_, equal_nan=True):           # (a stored NaN is a stored value: it comes back as NaN)
                         bad = 'spike %d channel %d: %r != expected %r' % (s, c, out[i, j].tolist(), e.tolist())
                         break
                 if bad:
@@ -277,7 +277,7 @@ def _features(m, spec, desc, ctx, rng, feat):
                 if 0 <= c < nc and (cols == c).sum() == 1:
                     e[c] = F[row, :, kk]
             o_ = out[i].astype(np.float64) if out.shape == (k, nc, npcs) else None
-            if o_ is None or not (np.array_equal(o_, e, equal_nan=True) or np.array_equal(o_, np.nan_to_num(e, nan=0.0))):
+            if o_ is None or not np.array_equal(o_, e, equal_nan=True):
                 ctx.violation('densify_mismatch', dict(desc, request=req),
                               'get_features on a refilled id buffer (call %d): spike %d differs from the stored values' % (q, s), f)
                 break
@@ -312,7 +312,7 @@ def _tfeatures(m, spec, desc, ctx, rng):
             for kk, u in enumerate(cols.tolist()):
                 if 0 <= u < nt and (cols == u).sum() == 1:
                     e[u] = TF[row, kk]           # (-1 = unused slot: contributes nothing)
-            if not np.array_equal(out[i], e):
+            if not np.array_equal(out[i], e, equal_nan=True):
                 ctx.violation('densify_mismatch', dict(desc, request=req),
                               'get_template_features: spike %d: %r != expected %r' % (s, out[i].tolist(), e.tolist()), f)
                 break
@@ -324,6 +324,8 @@ def _pca(case, ctx):
     n_samples = int(rng.integers(200, 500))
     spec = random_spec(rng, raw=['int16', 'float32'][int(rng.integers(0, 2))], n_samples=n_samples, ns=int(rng.integers(30, 70)),
                        nt=int(rng.integers(2, 4)), nc=int(rng.integers(3, 6)), nsw=int(rng.integers(4, 7)), rate=100.)
+    if case['seed'][2] % 2:
+        spec.notes['n_closest_channels'] = 3        # the store keeps 3 channels per spike: spikes of different templates differ in their channels
     # smooth-ish raw data with structure so that leading eigenvalues are separated
     t = np.arange(n_samples)[:, None]
     R = (200 * np.sin(t / 3.1 + np.arange(spec.n_channels_dat)[None, :]) + 60 * np.cos(t / 1.3) +
@@ -341,7 +343,8 @@ def _pca(case, ctx):
         m = r.value
         try:
             factor = [1.0, 0.5][int(rng.integers(0, 2))]
-            rs = call(m.save_spikes_subset_waveforms, max_n_spikes_per_template=40, max_n_channels=2, sample2unit=factor)
+            # (a small store: requests then mix spikes with and without an extracted waveform)
+            rs = call(m.save_spikes_subset_waveforms, max_n_spikes_per_template=[40, 12, 8][case['seed'][2] % 3], max_n_channels=2, sample2unit=factor)
             if not rs.ok or m.spike_waveforms is None:
                 ctx.violation('raised', desc, 'building the waveform store failed: %r' % (rs.exc,), dict(f, exc=rs.exc_name), tb=rs.tb)
                 return
